@@ -14,6 +14,10 @@ RULE = (
 STATES_MEANING = "distinct failure-tuple sets observed; transitions = entry-point executions of the real application/API"
 
 SPECIAL = [
+    "# a\n\ncost: $5 and $ b  \n",
+    "```\n$ ls\n```\n",
+    "a %s {x} $\n",
+    "a\x0cb\n",
     "# a\r\n\r\ntext  \r\n",
     "# a\r\n\r\n* b\r\n+ c\r\n",
     "# a\rb\r",
